@@ -14,7 +14,14 @@
  * Printing
  * ======================================================================== */
 
-void val_print(NanoValue v, FILE *out) {
+/* Containers can contain themselves (ARR_PUSH a a): bound the recursion. */
+#define VAL_PRINT_MAX_DEPTH 128
+
+static void val_print_depth(NanoValue v, FILE *out, int depth) {
+    if (depth > VAL_PRINT_MAX_DEPTH) {
+        fprintf(out, "...");
+        return;
+    }
     switch (v.tag) {
         case TAG_VOID:
             fprintf(out, "void");
@@ -53,7 +60,7 @@ void val_print(NanoValue v, FILE *out) {
                 fprintf(out, "[");
                 for (uint32_t i = 0; i < v.as.array->length; i++) {
                     if (i > 0) fprintf(out, ", ");
-                    val_print(v.as.array->elements[i], out);
+                    val_print_depth(v.as.array->elements[i], out, depth + 1);
                 }
                 fprintf(out, "]");
             } else {
@@ -68,7 +75,7 @@ void val_print(NanoValue v, FILE *out) {
                     if (v.as.sval->field_names && v.as.sval->field_names[i]) {
                         fprintf(out, "%s: ", vmstring_cstr(v.as.sval->field_names[i]));
                     }
-                    val_print(v.as.sval->fields[i], out);
+                    val_print_depth(v.as.sval->fields[i], out, depth + 1);
                 }
                 fprintf(out, "}");
             } else {
@@ -80,7 +87,7 @@ void val_print(NanoValue v, FILE *out) {
                 fprintf(out, "variant(%u", v.as.uval->variant);
                 for (uint32_t i = 0; i < v.as.uval->field_count; i++) {
                     fprintf(out, ", ");
-                    val_print(v.as.uval->fields[i], out);
+                    val_print_depth(v.as.uval->fields[i], out, depth + 1);
                 }
                 fprintf(out, ")");
             } else {
@@ -92,7 +99,7 @@ void val_print(NanoValue v, FILE *out) {
                 fprintf(out, "(");
                 for (uint32_t i = 0; i < v.as.tuple->count; i++) {
                     if (i > 0) fprintf(out, ", ");
-                    val_print(v.as.tuple->elements[i], out);
+                    val_print_depth(v.as.tuple->elements[i], out, depth + 1);
                 }
                 fprintf(out, ")");
             } else {
@@ -112,6 +119,10 @@ void val_print(NanoValue v, FILE *out) {
             fprintf(out, "unknown(%u)", v.tag);
             break;
     }
+}
+
+void val_print(NanoValue v, FILE *out) {
+    val_print_depth(v, out, 0);
 }
 
 void val_println(NanoValue v) {
